@@ -181,6 +181,14 @@ func toMap(in any, tag string) (map[string]any, error) {
 				if t[0] == "recorded" && val == uint64(0) {
 					continue
 				}
+				// id and internalId are omitted from the stored json as well when empty. Without this,
+				// a nested entity never equals its stored version and every re-post creates a new version
+				if t[0] == "id" && val == "" {
+					continue
+				}
+				if t[0] == "internalId" && val == uint64(0) {
+					continue
+				}
 			}
 			if t[0] == "refs" {
 				refs := val.(map[string]interface{})
